@@ -1270,7 +1270,7 @@ fn drive_lengths(sink: &mut Sink, _rng: &mut Rng, n: usize) {
     let mut counts: Vec<usize> = (0..=40).collect();
     counts.extend([63, 64, 65, 127, 128, 129, 255, 256, 257]);
     if n >= 2 {
-        counts.extend([300, 511, 512, 513, 1000]);
+        counts.extend([300, 400]);      // (TLC needs minutes per recorded parse beyond a few hundred qualifiers)
     }
     let counts2 = counts.clone();
     for n in counts {
